@@ -52,7 +52,7 @@ def pool(M, ctx):
     # the identities do not know units: a physically tiny copy (element distances ~1e-6) is in the core pool
     out.append(("cube|s1e-05", M.scale(out[2][1], 1e-5)))
     if not ctx.quick:
-        out += [("icosa", M.distort(M.icosahedron(), rng, **mild)), ("voxring", M.voxel_ring()), ("shell", M.nested_shell()),
+        out += [("icosa", M.distort(M.icosahedron(), rng, **mild)), ("voxring", M.voxel_ring()), ("shell", M.refine(M.nested_shell(), 1)),   # (refined: elements not larger than the gap between the two surfaces)
                 ("dented", M.distort(M.dented_block(), rng, **mild)), ("octa_r2", M.distort(M.refine(M.octahedron(), 2), rng, **mild)),
                 ("ellipsoid", M.distort(M.project_to_ellipsoid(M.refine(M.icosahedron(), 1), (1.0, 0.8, 0.6)), rng, **mild)),
                 ("cube_r1", M.distort(M.refine(M.cube(), 1), rng, **mild)), ("torus7x4", M.distort(M.torus(7, 4), rng, **mild)),
@@ -91,7 +91,9 @@ def main():
     adj_classes = {"edge": set(), "vertex": set()}
     worst = {"res1_top": 0.0, "res2_top": 0.0}
     topo_types = set()
-    for name, base in meshes:
+    for mi_, (name, base) in enumerate(meshes):
+        if not ctx.quick and not ctx.worker and mi_ >= 3:
+            nrel, nu = 1, 1   # thorough: three relabellings x two functions on the first three meshes, one each on the other ~30
         for r in range(nrel + 1):
             cidm = "%s:rel%d" % (name, r)
             rng = ctx.rng(name, r)
